@@ -107,7 +107,7 @@ impl SCfg {
         format!("stack new {} {} {} {} {t0}", self.ccfg().tokens(), self.strat_tokens(), self.max_samples, self.max_flows)
     }
     pub fn build(&self) -> Result<Tracer, Error> {
-        Builder::new(self.dst)
+        let b = Builder::new(self.dst)
             .source_addr(Some(self.src))
             .protocol(match self.proto { 'i' => Protocol::Icmp, 'u' => Protocol::Udp, _ => Protocol::Tcp })
             .multipath_strategy(match self.strat { 'c' => MultipathStrategy::Classic, 'p' => MultipathStrategy::Paris, _ => MultipathStrategy::Dublin })
@@ -131,9 +131,11 @@ impl SCfg {
             .grace_duration(Duration::from_nanos(self.grace))
             .min_round_duration(Duration::from_nanos(self.min_round))
             .max_round_duration(Duration::from_nanos(self.max_round))
-            .read_timeout(Duration::from_nanos(self.read_timeout))
-            .tcp_connect_timeout(Duration::from_nanos(self.tcp_timeout))
-            .max_samples(self.max_samples)
+            .read_timeout(Duration::from_nanos(self.read_timeout));
+        // a library user who does not set the TCP connect timeout gets the documented default of one second: that value
+        // in a configuration means "not set" here (what the layers are then configured with is compared with 1 s)
+        let b = if self.tcp_timeout == 1000 * MS { b } else { b.tcp_connect_timeout(Duration::from_nanos(self.tcp_timeout)) };
+        b.max_samples(self.max_samples)
             .max_flows(self.max_flows)
             .build()
     }
@@ -996,7 +998,7 @@ fn gen_cfg(rng: &mut Rng, proto: char, v6: bool) -> SCfg {
         initial: *rng.pick(&[0u16, 33434, 64000, 64511]), trace_id: *rng.pick(&[1u16, 4660, 65535]),
         max_rounds: Some(rng.range(3, 9) as usize), first, max: first + rng.below(8) as u8, inflight: rng.range(1, 6) as u8,
         grace: *rng.pick(&[0, 5 * MS, 40 * MS]), min_round: *rng.pick(&[0, 20 * MS]), max_round: *rng.pick(&[50 * MS, 120 * MS]),
-        read_timeout: 10 * MS, tcp_timeout: *rng.pick(&[30 * MS, 500 * MS]), max_samples: *rng.pick(&[1usize, 2, 6]),
+        read_timeout: 10 * MS, tcp_timeout: *rng.pick(&[30 * MS, 500 * MS, 1000 * MS]), max_samples: *rng.pick(&[1usize, 2, 6]),
         max_flows: *rng.pick(&[1usize, 3, 5]),
     }
 }
